@@ -10,7 +10,7 @@ import random
 
 import numpy as np
 
-NAMES = ["alpha", "beta", "gamma", "Δelta", "eps ilon", "zêta", "eta_7", "θ", "iota-9", "kap.pa", "数据", "mu"]
+NAMES = ["alpha", "beta", "gamma", "Δelta", "eps ilon", "zêta", "eta_7", "θ", "iota-9", "kap.pa", "数据", "mu", "pgA", "pgB"]   # (entities may be named like property groups)
 TEXTS = ["", "a", "bb", "çé", "日本", "x y", "LONG" * 5, "0", "nan", "{not-a-uuid}"]
 
 GROUP_CLASSES = ["ContainerGroup", "SimPEGGroup", "UIJsonGroup", "NoTypeGroup", "DrillholeGroup"]
